@@ -28,7 +28,9 @@ APPEND = {"integrity": "sha256-LCa0a2j/xo/5m0U8HTBBNBNCLXBkg7+g+YpeiGJm564=", "t
 GARBAGE = [b"", b"\x00" * 16, b"\xff\xfe\xfd garbage", b"half code point \xe2\x82", b"x" * 4096, b"two\ttabs\there",
            None,  # valid checksum + non-object JSON, filled in below
            None,  # \r-terminated copy of a valid record line
-           b"deadbeef\t{}", b"\t", b"\xf0\x9f\x98"]
+           b"deadbeef\t{}", b"\t", b"\xf0\x9f\x98",
+           None,  # checksum-valid record for KEY whose integrity cannot name a content file (filled in below)
+           None]  # the same for the foreign key
 
 
 def histories(maxlen):
@@ -107,6 +109,8 @@ def damages(data, quick):
     garb[6] = None
     nonobj = "[1,2,3]"
     garb[6] = (ref.sha256hex(nonobj.encode()) + "\t" + nonobj).encode()
+    garb[11] = ref.encode_record({"key": KEY, "integrity": "sha256-AA==", "time": 5, "size": 1, "metadata": None, "raw_metadata": None})[1:]
+    garb[12] = ref.encode_record({"key": FOREIGN, "integrity": "", "time": 5, "size": 1, "metadata": None, "raw_metadata": None})[1:]
     if recs:
         s, e, r = recs[0]
         garb[7] = data[s:e] + b"\r"
@@ -278,7 +282,7 @@ def main(tier, seed=0):
     jobs = [{"hist": h, "writer": "s" if i % 2 == 0 else "a"} for i, h in enumerate(hs)]
     return run_check(PROP, tier, jobs, worker, level="fault_enumeration",
                      rule="case = (bucket history written by the library, damage, number of further appends); damage = each record cut at every byte length (tail cut / middle cut), "
-                          "every single-bit flip of the file, each separating newline deleted, 11 garbage lines (empty, NULs, invalid UTF-8, half code point, 4 KiB, two tabs, valid "
+                          "every single-bit flip of the file, each separating newline deleted, 13 garbage lines (empty, NULs, invalid UTF-8, half code point, 4 KiB, two tabs, valid "
                           "checksum + non-object JSON, CR-terminated copy, ...) inserted at every record boundary, records transposed / duplicated / fragments duplicated; distinct = distinct tuples",
                      technique="exhaustive fault enumeration on index files, differential oracle against the independent reference decoder plus containment check against the write history",
                      assumptions=["a record line that merely gained a trailing CR may be honoured (all line readers strip CRLF): the reference does the same",
